@@ -22,6 +22,10 @@ SHARDS = {"quick": 8, "thorough": 16}
 BUDGET = {"quick": 25.0, "thorough": 420.0}
 REQUIRE = {
     "quick": {
+        "observer:modified_signals": 3000,
+        "eval:focus_read_inside_modified_signal": 500,
+        "eval:render_inside_modified_signal": 400,
+        "observer:signals_inside_listbox_operation_not_judged": 1000,
         "eval:mouse1_on_unfocused_listbox": 30,
         "mouse_event:mouse press": 500,
         "mouse_event:shift mouse press": 8,
@@ -100,6 +104,10 @@ REQUIRE = {
         "reach:widget.listbox.ListBox._set_focus_valign_complete": 1000
     },
     "thorough": {
+        "observer:modified_signals": 30000,
+        "eval:focus_read_inside_modified_signal": 5000,
+        "eval:render_inside_modified_signal": 4000,
+        "observer:signals_inside_listbox_operation_not_judged": 10000,
         "eval:mouse1_on_unfocused_listbox": 300,
         "mouse_event:mouse press": 5000,
         "mouse_event:shift mouse press": 80,
@@ -190,7 +198,8 @@ RULE = (
     "sequences after moving the focus to a high index, in 25% of the histories the SAME widget object placed at several "
     "positions (recipes sharing an id; op dup = w.insert(j, w[i])), in 8% a 1-3 item list around a tall unselectable item "
     "with mostly paging/scrolling keys and button-1 presses, in 7% an unfocused ListBox (rendered and clicked with focus=False) "
-    "around multi-row cursor items with set_focus/resize/button-1 presses, ListBox focus flag toggle; a case = the whole JSON recipe; distinct = distinct recipes; "
+    "around multi-row cursor items with set_focus/resize/button-1 presses, ListBox focus flag toggle; in 40% of the histories an application handler is connected to the walker's 'modified' signal "
+    "(after the ListBox's own) which reads the focus and (30%) redraws the ListBox inside the signal; a case = the whole JSON recipe; distinct = distinct recipes; "
     "non-trivial = at least one render was judged; a history stops at its first failure; per shard the first 3 (quick) / 8 "
     "(thorough) failures of each base signature (clause + kind of mismatch or exception site) are shrunk and classified, "
     "further ones are only counted (failure:* counters)"
@@ -203,6 +212,7 @@ ASSUMES = [
     "when row texts are not unique (blank Edit lines) every consistent slice position is tried and the clauses are required of at least one (counted as ambiguous_window)",
     "keys are only sent while the ListBox has focus; set_focus is only called with existing positions on a non-empty list (IndexError is documented otherwise)",
     "the harness keeps the last rendered ListBox canvas alive, as a display screen does, so CanvasCache may serve ListBox.render (a missing invalidation then shows as a stale, judged canvas)",
+    "a render / focus read made inside the walker's 'modified' signal is judged (same clauses as an ordinary render, list non-empty => focus not None) only when the signal comes from a list-mutating call of the history: the bundled walkers emit it when the mutation is complete, so it is a look at the list like any other; signals emitted while the ListBox is inside its own keypress/mouse_event/render (walker.set_focus from change_focus) are observed but not judged - the statement speaks about looks between operations; a blank canvas cached there is still caught by the following ordinary render because the harness keeps the drawn canvas alive",
     "mouse-press clause is judged only when the press immediately follows a judged render at the same size/focus flag, so 'visible item at that cell' is read from the canvas",
 ]
 
@@ -407,6 +417,7 @@ def gen_case(rng, max_ops):
         "size": [rng.randint(3, 20), rng.randint(1, 10)],
         "lbfocus": (rng.random() < 0.92) and not unfocused_mode,
         "focus0": rng.randint(0, 11) if rng.random() < 0.3 else None,
+        "observer": rng.choice(["none"] * 6 + ["draw"] * 3 + ["read"]),
         "items": items,
         "ops": ops,
     }
@@ -482,6 +493,17 @@ class Run:
         if case.get("focus0") is not None and self.model:
             self.walker.set_focus(self.pos_of(case["focus0"] % len(self.model)))
         self.lb = urwid.ListBox(self.walker)
+        # an application handler on the walker's "modified" signal, connected after the ListBox's own
+        self.observer = case.get("observer", "none")
+        self.in_mutator = False
+        self.in_signal = False
+        self.signal_failure = None
+        self.failed_in_signal = False
+        self.drew_in_signal = False
+        self.stale_focus_redraw = False
+        self.sig_pos = None
+        if self.observer != "none":
+            urwid.connect_signal(self.walker, "modified", self.on_modified)
         self.last_op = None
         self.layout = None  # (candidates, owners, shown) of the last judged render, valid until the next op
         self.step = -1
@@ -545,6 +567,46 @@ class Run:
         if not isinstance(idx, int) or not 0 <= idx < len(self.model) or self.model[idx] is not w:
             return w, None
         return w, idx
+
+    # ---- observer inside the walker's "modified" signal
+    def on_modified(self):
+        """what an application does that redraws (loop.draw_screen()) or looks at the focus whenever the list changes.
+
+        Judged only when the signal comes from a list-mutating call made by the history itself: the bundled walkers emit
+        "modified" when the mutation is complete, so list and focus are in their final state and a render there is a
+        render like any other.  Signals emitted while the ListBox is inside its own keypress / mouse_event / render
+        (walker.set_focus from change_focus etc.) find a ListBox that is half-way through an operation; the statement
+        speaks about looks between operations, so there the observer only reads the focus and is not judged."""
+        self.count("observer:modified_signals")
+        if self.in_signal or self.signal_failure is not None:
+            return
+        if not self.in_mutator:
+            self.walker.get_focus()
+            self.count("observer:signals_inside_listbox_operation_not_judged")
+            return
+        self.in_signal = True
+        try:
+            w, fi = self.focus_index()
+            self.count("eval:focus_read_inside_modified_signal")
+            self.sig_pos = self.walker.get_focus()[1]
+            try:
+                lbw = self.lb.focus
+                lbpos = self.lb.focus_position if self.model else None
+            except Exception as e:  # noqa: BLE001
+                lbw = lbpos = f"raises {type(e).__name__}: {e}"
+                w = None
+            if self.model and (w is None or lbw is None or fi is None):
+                raise Failure("focus-valid", "no-valid-focus", f"inside 'modified': walker.get_focus()={self.walker.get_focus()!r} lb.focus={lbw!r} lb.focus_position={lbpos!r} although the list has {len(self.model)} items")
+            if self.observer == "draw":
+                self.count("eval:render_inside_modified_signal")
+                self.drew_in_signal = True
+                self.render_and_check()
+                self.sig_pos = self.walker.get_focus()[1]  # a first render may itself move the focus (first selectable)
+        except Failure as f:
+            self.signal_failure = f
+            self.failed_in_signal = True
+        finally:
+            self.in_signal = False
 
     # ---- classification of the state at failure
     def state_sig(self):
@@ -671,7 +733,20 @@ class Run:
         elif k in MUTATORS:
             try:
                 was = (n, self.focus_index()[1])
-                self.mutate(op, n)
+                self.in_mutator = True
+                try:
+                    self.mutate(op, n)
+                finally:
+                    self.in_mutator = False
+                if self.signal_failure is not None:
+                    raise self.signal_failure
+                if self.drew_in_signal:
+                    self.drew_in_signal = False
+                    if self.walker.get_focus()[1] != self.sig_pos:
+                        # the walker moved its focus after emitting "modified" (and did not emit again): the canvas
+                        # drawn inside the signal shows another focus than the list has now
+                        self.stale_focus_redraw = True
+                        self.count("cover:focus_adjusted_after_modified_signal_redraw")
                 if n and not self.model:
                     self.emptied_with_focus = was[1]  # list just emptied; where the focus was
                 elif self.model and not n:
@@ -679,85 +754,92 @@ class Run:
                         self.count("cover:refill_by_iadd_or_extend_after_emptying_with_high_focus")
                     self.count("cover:refill_after_emptying")
                     self.emptied_with_focus = None
+            except Failure:
+                raise
             except Exception as e:  # noqa: BLE001
                 raise Failure("raise", exckind(e), f"walker {op} raised {type(e).__name__}: {e}\n{traceback.format_exc(limit=8)}") from None
         else:
             raise ValueError(op)
 
     def mutate(self, op, n):
+        """apply one list-mutating call.  The mirrored list is updated BEFORE the walker is called (stepwise for the
+        dict walkers' multi-call ops), so that an observer running inside the walker's "modified" signal - which the
+        walkers emit when the mutation is complete - is judged against the list as it is at that moment."""
         k = op[0]
         simple = self.wk in ("slw", "sflw")
         wk = self.walker
+        old = list(self.model)
         if k == "insert":
             idx = op[1] % (n + 1)
             w = self.make_item(op[2])
+            self.model.insert(idx, w)
             if simple:
                 wk.insert(idx, w)
             elif not wk.insert_at(idx, w):
+                self.model[:] = old
                 self.count("skipped:no_room_for_key")
-                return
-            self.model.insert(idx, w)
         elif k == "delete":
             if n == 0:
                 self.count("skipped:delete_on_empty")
                 return
             idx = op[1] % n
+            del self.model[idx]
             if simple:
                 del wk[idx]
             else:
                 wk.delete_at(idx)
-            del self.model[idx]
         elif k == "replace":
             if n == 0:
                 self.count("skipped:replace_on_empty")
                 return
             idx = op[1] % n
             w = self.make_item(op[2])
+            self.model[idx] = w
             if simple:
                 wk[idx] = w
             else:
                 wk.replace_at(idx, w)
-            self.model[idx] = w
         elif k in ("clear", "clearm"):
+            del self.model[:]
             if not simple:
                 wk.clear_all()
             elif k == "clear":
                 del wk[:]
             else:
                 wk.clear()
-            del self.model[:]
         elif k in ("iadd", "extend"):
             if n > GROW_LIMIT:
                 self.count("skipped:list_too_long")
                 return
             ws = [self.make_item(r) for r in op[1]]
             if simple:
+                self.model.extend(ws)
                 if k == "iadd":
                     wk += ws
                     if wk is not self.walker:
                         raise TypeError("walker += items returned another object")
                 else:
                     wk.extend(ws)
-                self.model.extend(ws)
             else:
                 for w in ws:
-                    if not wk.insert_at(len(self.model), w):
+                    self.model.append(w)
+                    if not wk.insert_at(len(self.model) - 1, w):
+                        self.model.pop()
                         self.count("skipped:no_room_for_key")
                         break
-                    self.model.append(w)
         elif k == "imul":
             m = op[1]
             if m == 2 and n > GROW_LIMIT // 2:
                 self.count("skipped:list_too_long")
                 return
             if simple:
+                self.model *= m
                 wk *= m
                 if wk is not self.walker:
                     raise TypeError("walker *= n returned another object")
-                self.model *= m
             elif m == 0:
-                wk.clear_all()
                 del self.model[:]
+                wk.clear_all()
             elif m == 2:
                 self.count("skipped:not_a_list_walker")
         elif k == "setslice":
@@ -766,55 +848,56 @@ class Run:
                 return
             ws = [self.make_item(r) for r in op[3]]
             if simple:
-                wk[op[1] : op[2]] = ws
                 self.model[op[1] : op[2]] = ws
+                wk[op[1] : op[2]] = ws
             else:
                 start, stop, _st = slice(op[1], op[2]).indices(n)
                 for i in range(max(start, stop) - 1, start - 1, -1):
-                    wk.delete_at(i)
                     del self.model[i]
+                    wk.delete_at(i)
                 for j, w in enumerate(ws):
+                    self.model.insert(start + j, w)
                     if not wk.insert_at(start + j, w):
+                        del self.model[start + j]
                         self.count("skipped:no_room_for_key")
                         break
-                    self.model.insert(start + j, w)
         elif k in ("pop", "remove"):
             if n == 0:
                 self.count("skipped:delete_on_empty")
                 return
-            idx = op[1] if op[1] == -1 else op[1] % n
+            idx = (n - 1) if op[1] == -1 else op[1] % n
             if k == "remove":
-                idx = next(i for i, it in enumerate(self.model) if it is self.model[idx])  # first occurrence
+                idx = next(i for i, it in enumerate(old) if it is old[idx])  # first occurrence
+            del self.model[idx]
             if not simple:
-                wk.delete_at(idx % n)
+                wk.delete_at(idx)
             elif k == "pop":
-                got = wk.pop(idx)
-                if got is not self.model[idx]:
+                got = wk.pop(-1 if op[1] == -1 else idx)
+                if got is not old[idx]:
                     raise TypeError("walker.pop(i) returned another object than walker[i]")
             else:
-                wk.remove(self.model[idx])
-            del self.model[idx]
+                wk.remove(old[idx])
         elif k in ("reverse", "sort"):
             if not simple:
                 self.count("skipped:not_a_list_walker")
             elif k == "reverse":
-                wk.reverse()
                 self.model.reverse()
+                wk.reverse()
             else:
-                wk.sort(key=lambda w: w._c07["id"])
                 self.model.sort(key=lambda w: w._c07["id"])
+                wk.sort(key=lambda w: w._c07["id"])
         elif k == "dup":
             if n == 0 or n > GROW_LIMIT:
                 self.count("skipped:dup")
                 return
-            w = self.model[op[1] % n]
+            w = old[op[1] % n]
             idx = op[2] % (n + 1)
+            self.model.insert(idx, w)
             if simple:
                 wk.insert(idx, wk[op[1] % n])
             elif not wk.insert_at(idx, w):
+                self.model[:] = old
                 self.count("skipped:no_room_for_key")
-                return
-            self.model.insert(idx, w)
 
     # ---- the oracle
     def render_and_check(self):
@@ -830,7 +913,8 @@ class Run:
         self.renders += 1
         # CanvasCache holds canvases weakly; a display screen keeps the last drawn canvas alive, and so do we:
         # otherwise the ListBox's cached canvas dies at once and a missing invalidation could never show
-        if canv is self.held:
+        from_cache = canv is self.held
+        if from_cache:
             count("cover:render_served_from_cache")
         self.held = canv
         shown = [b.decode("ascii", "replace") for b in content]
@@ -929,6 +1013,8 @@ class Run:
         if any(it._c07["t"] == "pile0" or (it._c07["t"] != "edit" and self.item_height(it, maxcol) == 0) for it in self.model):
             count("cover:zero_row_item_in_list")
         self.layout = (cands, owners, shown)
+        if not self.in_signal and not from_cache:
+            self.stale_focus_redraw = False  # the ListBox has really been drawn again since the in-signal redraw
 
     def diagnose(self, shown, full, blank):
         idx = {}
@@ -976,6 +1062,14 @@ class Run:
                 if f.clause == "mouse1-focus" and self.pre_focus:
                     st["focus"] = self.pre_focus
                 base = f"C07|{f.clause}|{f.kind}"
+                if self.failed_in_signal:
+                    base += "|at=inside-modified-signal"
+                if f.clause == "focus-valid" and self.failed_in_signal:
+                    return base, st, f.msg, i
+                if self.stale_focus_redraw and not self.failed_in_signal and f.clause != "raise":
+                    # one mechanism whatever clause notices it first: an ordinary render served the canvas that was
+                    # drawn inside the signal before the walker adjusted its focus
+                    return "C07|stale-redraw|focus-adjusted-after-modified-signal", st, f"[{f.clause}|{f.kind}] {f.msg}", i
                 if f.clause != "raise":
                     base += f"|op={st['op']}|focus={st['focus'].split(',')[0].replace('edit', 'cursor')}"
                 return base, st, f.msg, i
@@ -1027,6 +1121,9 @@ def reproduces(case, base):
     return res is not None and res[0] == base
 
 
+SIGNAL_ORDER_BASES = ("C07|stale-redraw|", "C07|focus-valid|no-valid-focus|at=inside-modified-signal")
+
+
 def classify(wit, base, st):
     """full signature of a (shrunk) witness.
 
@@ -1040,9 +1137,13 @@ def classify(wit, base, st):
     others = {"slw": ("sflw", "dictv2"), "sflw": ("slw", "dictv2")}.get(walker, ("sflw", "slw"))
     if any(reproduces(dict(wit, walker=o), base) for o in others):
         walker = "any"  # not specific to one walker class
+    if base.startswith(SIGNAL_ORDER_BASES):
+        return f"{base}|walker={wit['walker']}"  # about the walker class's own signal/focus order: always named
     sig = base
     if st.get("repeat"):
         sig += "|list=repeated-widget-object"
+    if wit.get("observer", "none") != "none" and "|at=inside-modified-signal" not in base:
+        sig += "|observer=" + wit["observer"]  # a handler on the walker's "modified" signal is necessary for the witness
     last = wit["ops"][-1]
     if last[0] == "mouse" and not last[1].startswith("mouse "):
         sig += "|event=with-modifier-prefix"  # the shrinker could not strip the prefix from the failing event
@@ -1115,7 +1216,7 @@ def shrink(case, base, step, max_runs=220):
                 progress = True
             i -= 1
         # canonical walker / flags
-        patches = [{"walker": "sflw"}, {"walker": "slw"}, {"walker": "dictv2"}, {"focus0": None}, {"size": [10, best["size"][1]]}]
+        patches = [{"walker": "sflw"}, {"walker": "slw"}, {"walker": "dictv2"}, {"focus0": None}, {"size": [10, best["size"][1]]}, {"observer": "none"}]
         for patch in patches:
             if all(best.get(k) == v for k, v in patch.items()):
                 continue
@@ -1123,6 +1224,8 @@ def shrink(case, base, step, max_runs=220):
                 continue
             if patch.get("walker") == "slw" and best["walker"] in ("slw", "sflw"):
                 continue
+            if "walker" in patch and base.startswith(SIGNAL_ORDER_BASES):
+                continue  # the walker class is the subject of these signatures
             c = dict(best, **patch)
             if same(c):
                 best = c
